@@ -8,6 +8,9 @@ type ssaFunction = ssa.Function
 
 // per-property adjustments of the exploration limits
 var propConfig = map[string]func(tier string, cfg *Config){
+	// C04 demands termination: a path that exhausts its instruction budget and whose native replay does
+	// not come back within its deadline either is reported as a violation, not as an inconclusive run
+	"C04": func(tier string, cfg *Config) { cfg.BudgetIsViolation = true },
 	// the three-step histories of C19 over four tags and empty/non-empty texts are many short paths
 	"C19": func(tier string, cfg *Config) {
 		if cfg.MaxPaths < 400000 {
